@@ -153,6 +153,10 @@ def generate(seed, h, tier):
         r = rng.sub("faults")
         files = list(engine_i.ALL_OUTPUTS)
         n = r.pick([2, 3, 4, 6, 21] if h < 16 else [1, 2, 2, 3, 4, 6, 21])
+        if h == 3:
+            # always present in every tier: every derived file dirty at once, so that each output is
+            # stale/garbage at least once per run (a script that trusts an existing output is then seen)
+            n = len(files)
         modes = list(GARBAGE_MODES)
         r.shuffle(modes)  # modes drawn without replacement within a history
         chosen = []
